@@ -984,7 +984,92 @@ fn generate(seed: u64, n_cases: usize, tier: &str) {
             }
         }
     }
+    gen_domain_families(seed, n_cases, thorough, &mut id, &mut out);
     out.flush();
+}
+
+// ------------------------------------------------------------- input-domain families (domain audit)
+//
+// Separately seeded, appended AFTER the random cases (which stay what they were): sizes the random stream cases
+// never reach — messages of 8-40 elements (one message filling the buffer with tens of outputs, as text, binary
+// and among the events buffered during subscription validation), runs of 20-80 consecutive skippable frames
+// (ping / pong / raw frame, with empty, 1-byte and 125-byte payloads) inside ONE poll, a pre-filled buffer of
+// 10-30 items, a large initial transformer state, empty text / binary payloads and a close frame directly behind
+// such a run.
+
+fn gen_long_vec_text(rng: &mut Rng) -> String {
+    let n = rng.range(8, 40);
+    let body: Vec<String> = (0..n).map(|_| rng.pick(&VALS).to_string()).collect();
+    format!("[{}]", body.join(","))
+}
+
+fn gen_housekeeping(rng: &mut Rng) -> String {
+    let payload = match rng.below(4) {
+        0 => "-".to_string(),
+        1 => hex(&[rng.below(256) as u8]),
+        2 => hex(&[0x5a; 125]),
+        _ => hex(b"[1,2]"),
+    };
+    format!("{} {payload}", rng.pick(&["ping", "pong", "frame"]))
+}
+
+fn gen_domain_families(seed: u64, n_cases: usize, thorough: bool, id: &mut usize, out: &mut Out) {
+    let mut rng = Rng::new(seed ^ 0xD0_12_57_EA_5EED);
+    let n_extra = if thorough { n_cases / 20 } else { 30 };
+    for _ in 0..n_extra {
+        *id += 1;
+        out.case(format!("dlong{id}"));
+        if rng.chance(40) {
+            for _ in 0..rng.range(1, 12) {
+                let m = match rng.below(4) {
+                    0 => format!("text {}", esc(&gen_long_vec_text(&mut rng))),
+                    1 => format!("bin {}", hex(gen_long_vec_text(&mut rng).as_bytes())),
+                    2 => gen_housekeeping(&mut rng),
+                    _ => gen_message(&mut rng),
+                };
+                out.line(format!("bpush {m}"));
+            }
+        }
+        let buf = if rng.chance(40) {
+            (0..rng.range(10, 30))
+                .map(|_| format!("{}{}", if rng.chance(70) { "o" } else { "e" }, rng.pick(&[0u64, 1, 49, 4294967296, u64::MAX])))
+                .collect::<Vec<_>>()
+                .join(",")
+        } else {
+            gen_buf(&mut rng)
+        };
+        out.line(format!("new {} {buf}", rng.pick(&[0u64, 1, 4294967295, 1099511627776])));
+        let mut pends = 0;
+        for _ in 0..rng.range(1, 4) {
+            for _ in 0..rng.range(20, if thorough { 80 } else { 50 }) {
+                if rng.chance(2) {
+                    pends += 1;
+                    out.line("push pend");
+                } else {
+                    out.line(format!("push {}", gen_housekeeping(&mut rng)));
+                }
+            }
+            out.line(match rng.below(8) {
+                0 => "push text =".to_string(),
+                1 => "push bin -".to_string(),
+                2 => "push close none".to_string(),
+                3 => format!("push bin {}", hex(gen_long_vec_text(&mut rng).as_bytes())),
+                4 => format!("push err {}", rng.pick(&ERR_KINDS)),
+                _ => format!("push text {}", esc(&gen_long_vec_text(&mut rng))),
+            });
+            for _ in 0..rng.range(0, 3) {
+                out.line("poll");
+            }
+        }
+        if rng.chance(80) {
+            out.line("end");
+        }
+        for _ in 0..=pends {
+            out.line("drain");
+        }
+        out.line("poll");
+        out.line("collect");
+    }
 }
 
 fn main() {
